@@ -128,13 +128,95 @@ fn check_history(h: &[usize], first: &[Obs], acc: &mut Acc) {
 
 /// child side: print one line per expression
 pub fn child_dump() -> i32 {
-    for e in EXPRS {
-        match observe(e) {
+    let extra: Vec<String> = std::env::var("FPVERIF_C15_EXTRA").ok().and_then(|t| serde_json::from_str(&t).ok()).unwrap_or_default();
+    for e in EXPRS.iter().map(|s| s.to_string()).chain(extra) {
+        match observe(&e) {
             Ok(o) => println!("{}", json!({"parsed": o.parsed, "program": o.program, "table_sorted": sorted_table(&o.table)})),
             Err(e) => println!("{}", json!({"error": e})),
         }
     }
     0
+}
+
+/// Time tests whose bound lies within a day of "now": the same text compiled at another date must
+/// give the same program (the embedded clock second aside).  Run in fresh processes whose clock
+/// is shifted through the clock seam.
+fn across_dates(acc: &mut Acc) -> String {
+    let shim = speclib::report::root().join("target").join("clockshim.so");
+    if !shim.exists() {
+        return "clock seam not built: not run".into();
+    }
+    let t = now();
+    let mut texts: Vec<String> = vec![];
+    for (unit, secs) in [("m", 60u64), ("h", 3600), ("d", 86400), ("", 60)] {
+        for n in [(t + 86_400) / secs, (t + 43_200) / secs + 1, t / secs, t / secs + 1] {
+            for (kw, sign) in [("-amin", "+"), ("-mmin", "-"), ("-cmin", "")] {
+                texts.push(format!("{kw} {sign}{n}{unit}"));
+            }
+        }
+    }
+    for (unit, secs) in [("", 86400u64), ("h", 3600)] {
+        for n in [(t + 86_400) / secs, t / secs] {
+            texts.push(format!("-mtime +{n}{unit} -print"));
+            texts.push(format!("! -atime -{n}{unit}"));
+        }
+    }
+    let extra = serde_json::to_string(&texts).unwrap();
+    let dump = |offset: i64| -> Option<Vec<String>> {
+        let o = std::process::Command::new(exe("release"))
+            .args(["child", "c15"])
+            .env("FPVERIF_C15_EXTRA", &extra)
+            .env("LD_PRELOAD", &shim)
+            .env("FPVERIF_CLOCK_OFFSET", offset.to_string())
+            .output()
+            .ok()?;
+        Some(String::from_utf8_lossy(&o.stdout).lines().skip(EXPRS.len()).map(|l| l.to_string()).collect())
+    };
+    let Some(base) = dump(0) else { return "child failed".into() };
+    let mut compared = 0;
+    for (label, off) in [("three days later", 3 * 86_400i64), ("three days earlier", -3 * 86_400), ("two hours later", 7_200), ("a year later", 365 * 86_400)] {
+        let Some(other) = dump(off) else { continue };
+        for (k, (a, b)) in base.iter().zip(other.iter()).enumerate() {
+            acc.states += 1;
+            acc.transitions += 1;
+            compared += 1;
+            // the clock second itself is replaced in both; a count within a day of the shifted
+            // clock's value may be replaced on one side only: compare with all long numbers near
+            // either clock masked
+            let mask = |s: &str| {
+                let mut out = String::new();
+                let mut num = String::new();
+                for c in s.chars().chain(std::iter::once(' ')) {
+                    if c.is_ascii_digit() {
+                        num.push(c);
+                    } else {
+                        if let Ok(v) = num.parse::<i128>() {
+                            let near = |x: i128| (v - x).abs() <= 2 * 86_400;
+                            if num.len() >= 9 && (near(t as i128) || near(t as i128 + off as i128)) {
+                                out.push_str("NOW");
+                            } else {
+                                out.push_str(&num);
+                            }
+                        } else {
+                            out.push_str(&num);
+                        }
+                        num.clear();
+                        out.push(c);
+                    }
+                }
+                out.replace("NOW", "#")
+            };
+            if mask(a) != mask(b) {
+                acc.violate(Violation::new(
+                    "C15:program-depends-on-the-date-of-the-call",
+                    format!("{:?} compiled now and {label} gives different programs:\n{}\n-- vs --\n{}", texts.get(k).map(|s| s.as_str()).unwrap_or("?"), a.chars().take(500).collect::<String>(), b.chars().take(500).collect::<String>()),
+                    json!({"kind": "dates", "text": texts.get(k), "offset": off}),
+                ));
+                break;
+            }
+        }
+    }
+    format!("{} time tests with bounds within a day of now compiled at 5 dates ({compared} comparisons)", texts.len())
 }
 
 fn sorted_table(t: &str) -> String {
@@ -417,6 +499,8 @@ pub fn run(ctx: &Ctx) -> i32 {
             ));
         }
     }
+    let dates_note = across_dates(&mut acc);
+    speclib::report::EXTRA.lock().unwrap().1.push(("across_dates".into(), json!(dates_note)));
     // fresh processes
     let nproc = ctx.tier.pick(8, 64);
     let mut dumps: Vec<String> = vec![];
